@@ -186,12 +186,14 @@ function controlKinds() {
     ['for:nested', (b) => [el('v', [], [el('w', [], [...b, text(E(id('j')), E(id('item')))], { wxFor: { list: E(id('item')), item: 'j' } })], { wxFor: { list: LIST } })]],
     ['template:def+is', (b) => [tdef('t', [...b, text(E(id('x')))]), tis('t', M.obj([{ key: 'x', value: id('y') }]))]],
     ['template:is-no-data', (b) => [tdef('t', [...b, text(E(id('x')))]), tis('t')]],
+    // (a template without a data attribute gets an empty object, not a string: `length` is undefined there)
+    ['template:is-no-data-reads-length', (b) => [tdef('t', [...b, text('[', E(id('length')), ']')]), tis('t')]],
     ['template:is-shorthand', (b) => [tdef('t', [...b, text(E(id('x')), E(id('y')))]), tis('t', M.obj([{ short: 'x' }, { short: 'y' }]))]],
     ['template:is-two-spreads', (b) => [tdef('t', [...b, text(E(id('b')), E(M.mem(id('a'), 'v')))]), tis('t', M.obj([{ spread: id('obj') }, { spread: id('a') }]))]],
     ['template:is-spread', (b) => [tdef('t', [...b, text(E(id('b')))]), tis('t', M.obj([{ spread: id('a') }]))]],
     ['template:is-dynamic', (b) => [tdef('t', [...b, text('T')]), tdef('u', [text('U')]), tis(E(id('n')))]],
     ['template:is-missing', (b) => [tdef('t', b), tis('zz')]],
-    ['template:is-missing-prototype-name', (b) => [tdef('t', b), tis('constructor'), tis('toString'), tis('__proto__')]],
+    ['template:is-missing-prototype-name', (b) => [tdef('t', b), tis('valueOf'), tis('toString'), tis('hasOwnProperty')]],
     ['template:named-__proto__', (b) => [tdef('__proto__', [...b, text('P')]), tdef('constructor', [text('C')]), tis('__proto__'), tis('constructor')]],
     ['template:def-after-use', (b) => [tis('t', M.obj([{ short: 'x' }])), tdef('t', [...b, text(E(id('x')))])]],
     ['template:is+if', (b) => [tdef('t', b), tis('t', undefined, { wxIf: C0 })]],
